@@ -147,7 +147,10 @@ class LexModel:
                 if not rest:
                     return {"kind": "none"}
                 return self._run(t[2][2] if rest[0] in "0123456789" else t[2][3], rest)
+            k_alt = self._consume_count(t[1])
             e = unify(CONSUME, t[1])
+            if e is None and k_alt is not None:
+                e = {"?k": str(k_alt)}
             if e is not None:
                 k = int(e["?k"])
                 r = self._run(t[2], rest[k:])
@@ -184,6 +187,19 @@ class LexModel:
                 return {"kind": "scan", "term": t}
             return self._run(t[2] if c else t[3], rest)
         return {"kind": "scan", "term": t}
+
+    @staticmethod
+    def _consume_count(st):
+        """other spellings of `consume k characters`: for _ in 0..k { expr.next(); } / expr.nth(k-1)"""
+        e = M(("for", "_", ("range", ("lit", "0", "?t"), ("lit", "?k", "?t")), ("call", "Chars.next", ("field", ("param", "self"), "expr"))), st)
+        if e is not None:
+            return int(e["?k"])
+        e = M(("call", "Chars.nth", ("field", ("param", "self"), "expr"), ("lit", "?k", "usize")), st)
+        if e is not None:
+            return int(e["?k"]) + 1
+        if unify(NEXT, st) is not None:
+            return 1
+        return None
 
     def _cond(self, c, rest):
         e = M(("call", "<String as cmp::PartialEq>::eq", LOOK, ("str", "?s")), c)
